@@ -251,6 +251,15 @@ def _store_all_routes(Fxp, carrier, shape, signed, n_word, n_frac, r, o, routes=
                 if shape == ():
                     x = _mk(Fxp, signed, n_word, n_frac, r, o, np.zeros(3, dtype=complex if isinstance(carrier, (complex, np.complexfloating)) else float))
                     x[1] = carrier
+                    if not isinstance(carrier, (complex, np.complexfloating)) and n_word >= 2:
+                        # ... and into an array whose other elements hold odd codes (fraction bits set): the whole array reads back as code*LSB afterwards
+                        x.get_val()
+                        x = _mk(Fxp, signed, n_word, n_frac, r, o)
+                        x.set_val(np.array([1, 1, 1]), raw=True)
+                        x[1] = carrier
+                        x.get_val()
+                        x.astype(float)
+                        x[0]()
                     # ... and into a scalar object through the empty index / the ellipsis (a complex scalar for a complex value)
                     x0 = _mk(Fxp, signed, n_word, n_frac, r, o, 0j if isinstance(carrier, (complex, np.complexfloating)) else 0.0)
                     x0[()] = carrier
